@@ -31,7 +31,7 @@ LEVEL_TEXT = ("Exploration: the proxy is five lines, but which object it returns
 LEVEL_NOTE = "Trusts ref_decl and the explicit walk; properties other than the documented shortcuts are not judged."
 DESIGN_REF = "DESIGN.md §3 C16"
 MIN_COUNTERS = {"quick": {"flat_reads_judged": 10000, "misses_judged": 20000, "copies_judged": 12000, "copies_of_instances_read_from_text": 1000, "shortcuts_judged": 1500, "classes": 380, "statements_shortcut_members": 300},
-                "thorough": {"flat_reads_judged": 150000, "misses_judged": 400000, "copies_judged": 240000, "copies_of_instances_read_from_text": 18000, "shortcuts_judged": 20000, "classes": 380, "statements_shortcut_members": 10000}}
+                "thorough": {"flat_reads_judged": 110000, "misses_judged": 300000, "copies_judged": 180000, "copies_of_instances_read_from_text": 18000, "shortcuts_judged": 20000, "classes": 380, "statements_shortcut_members": 10000}}
 
 UNDEFINED = ["nosuchattr", "zz_undefined", "statementz", "__deepcopy__x", "__copy__", "__deepcopy__", "__getnewargs__", "__getnewargs_ex__", "__setstate__",
              "__reduce_ex__zz", "_private", "__wrapped__", "__fspath__", "__index__", "__len__zz", "__html__", "_ipython_canary_method_should_not_exist_"]
@@ -343,6 +343,11 @@ def run_class(ctx, name, cls, seed, thorough):
 def run_shard(ctx):
     classes = ref_decl.all_classes()
     thorough = ctx.tier == "thorough"
+    if ctx.shard % 2 == 1:
+        # every other shard: the class-level API of the non-exported base classes (Aggregate, TrnRs, ...) is used before any model
+        # class is - what a base class works out for itself must not be what its subclasses then find
+        ctx.count("base_classes_used_first", ref_decl.touch_base_classes())
+        ctx.case_extra = {"base_first": True}
     for ci, (name, cls) in enumerate(classes.items()):
         if ci % ctx.nshards != ctx.shard:
             continue
@@ -378,6 +383,8 @@ def run_shard(ctx):
 
 def replay(ctx, case):
     classes = ref_decl.all_classes()
+    if case.get("base_first"):
+        ref_decl.touch_base_classes()
     name = case["cls"]
     rng = random.Random(case["seedstr"])
     if case.get("msgset"):
